@@ -16,6 +16,7 @@ import (
 
 type clause struct {
 	Kind  string // requires, ensures, decreases, loopinv, loopdec, loopmod
+	Target string // callsite clauses: short name of the callee
 	Layer string // "" = base contract; otherwise the property whose separate verification layer the clause belongs to
 	Label string // ensures label, e.g. C17.table
 	Loop  int
@@ -80,7 +81,7 @@ type contractDB struct {
 	Files     []string
 }
 
-var clauseKw = regexp.MustCompile(`^(ghost|spec|macro|lemma|contract|external|requires|ensures|emits|decreases|loop|safety|props|inline|pure|modifies|noreturn|fuel|unreachable)\b`)
+var clauseKw = regexp.MustCompile(`^(ghost|spec|macro|lemma|contract|external|requires|ensures|emits|callsite|decreases|loop|safety|props|inline|pure|modifies|noreturn|fuel|unreachable)\b`)
 
 func newContractDB() *contractDB {
 	return &contractDB{Specs: map[string]*specDef{}, Contracts: map[string]*contract{}, Ghosts: map[string]string{}}
@@ -228,6 +229,21 @@ func (db *contractDB) loadContractFile(path, pkgPath string) error {
 				} else {
 					cl.Kind, cl.Label, cl.Src = "ensures", strings.TrimSpace(rest[:k]), strings.TrimSpace(rest[k+1:])
 				}
+			case "callsite":
+				// callsite LABEL TARGET#N: EXPR   -- must hold in the caller's state whenever the N-th call of TARGET is reached
+				k := strings.Index(rest, ":")
+				f := strings.Fields(rest[:maxI(k, 0)])
+				if k < 0 || len(f) != 2 || !strings.Contains(f[1], "#") {
+					return fail("callsite LABEL TARGET#N: expr")
+				}
+				cl.Kind, cl.Label, cl.Src = "callsite", f[0], strings.TrimSpace(rest[k+1:])
+				hash := strings.LastIndex(f[1], "#")
+				cl.Target = f[1][:hash]
+				n, err := strconv.Atoi(f[1][hash+1:])
+				if err != nil {
+					return fail("callsite ordinal: %v", err)
+				}
+				cl.Loop = n
 			case "emits":
 				k := strings.Index(rest, "=")
 				if k < 0 {
@@ -478,4 +494,11 @@ func (ct *contract) hasLayer(layer string) bool {
 		}
 	}
 	return false
+}
+
+func maxI(a, b int) int {
+	if a > b {
+		return a
+	}
+	return b
 }
